@@ -21,6 +21,7 @@
   written under a pending `token.NoPos`; `every_setpos_reported_counterexample` is the buffer-level mechanism.
 -/
 import GV.Proofs.SrcMap
+import GV.Proofs.SrcMapPath
 import GV.Props.C16
 
 namespace GV.Props.C19
@@ -606,6 +607,42 @@ theorem minify_keeps_mappings (its : List GV.JsTokens.Item) (hok : GV.JsTokens.i
     rw [← a1, ← b1, write_render' _ a2, write_render' _ b2]
     exact ⟨rfl, by simp only [a3, b3, hh]⟩
 
+/-! ### names of original files: `Filter.normalizePath` (filter.go:202-231)
+
+  Model `GV.SrcMapPath.normalizePath` (the code as it is since the repair c63a0c1); specification
+  `GV.Spec.SrcMapPath.name` over path components: the name is "/" + the path relative to `<root>/src` of the first root
+  (GOPATH workspaces in order, then GOROOT) that contains the file by components, else the last component. The scheme
+  before the repair (`normalizePathOld`), its counterexamples and its partial theorem are in "repaired defects" below. -/
+
+section NormalizePath
+open GV.PathClean GV.SrcMapPath GV.Proofs.SrcMapPath
+
+/-- `normalize_full` (full strength): for ALL roots and files `normalizePath` names the file as the component
+    specification demands — whatever string prefixes the roots are of one another or of the file. -/
+theorem normalize_full (goroot gopath file : List Nat) :
+    normalizePath false goroot gopath file =
+      GV.Spec.SrcMapPath.name ((splitList gopath ++ [goroot]).map clean) file :=
+  fixed_eq_spec goroot gopath file
+
+/-- the demanded name resolves: a file named through root r is `<r>/src` + name again -/
+theorem name_resolves (root file : List Nat) (rest : List (List Nat))
+    (h : GV.Spec.SrcMapPath.below root file = some rest) :
+    file = (if root = [47] then [] else root) ++ [47, 115, 114, 99] ++ (47 :: joinSlash rest) :=
+  eq_of_below root file rest h
+
+/-- with `--localmap` the name is the file itself -/
+theorem normalize_localmap (goroot gopath file : List Nat) : normalizePath true goroot gopath file = file := by
+  simp [normalizePath]
+
+-- regression witnesses of the repaired defect, now named correctly: sibling of GOROOT -> "m.go", module cache -> "f.go",
+-- GOPATH that has GOROOT as a string prefix -> "/d/m.go"
+example : normalizePath false [47,120,47,103,111] [47,121] [47,120,47,103,111,45,119,47,97,112,112,47,109,46,103,111] = [109,46,103,111] := by decide
+example : normalizePath false [47,120,47,103,111] [47,121] [47,121,47,112,107,103,47,109,111,100,47,97,47,102,46,103,111] = [102,46,103,111] := by decide
+example : normalizePath false [47,120,47,103,111] [47,120,47,103,111,45,119]
+    [47,120,47,103,111,45,119,47,115,114,99,47,100,47,109,46,103,111] = [47,100,47,109,46,103,111] := by decide
+
+end NormalizePath
+
 /-! ### repaired defects (theorems about the code as it was before the round-2 repairs) -/
 
 /-- `defaultJSMappingCallback` before the repair C19-js-first-line-column: the test was `GeneratedLine == 0` -/
@@ -620,5 +657,75 @@ theorem offset_js_counterexample_before_repair :
   have := h ⟨1, 12⟩ ⟨1, 0, "helper.inc.js:1:0"⟩ (by decide)
   revert this
   decide
+
+/-! #### `normalizePath` before the repair c63a0c1 (bare `strings.HasPrefix`, fixed cut of 4 bytes) -/
+
+section NormalizePathOld
+open GV.PathClean GV.SrcMapPath GV.Proofs.SrcMapPath
+
+/-- `normalize_partial_before_repair`: the old code names the file as demanded whenever GOROOT is in clean form, no root is "/", and
+    the FIRST root (in the code's order) that is a string prefix of the file really has the file inside its src directory
+    (`FirstMatchReal`: no bare string-prefix match such as /x/go vs /x/go-work/…, no file of a root outside src). -/
+theorem normalize_partial_before_repair (goroot gopath file : List Nat) (hc : clean goroot = goroot)
+    (h : FirstMatchReal (codeRoots goroot gopath) file) :
+    normalizePathOld false goroot gopath file =
+      some (GV.Spec.SrcMapPath.name ((splitList gopath ++ [goroot]).map clean) file) :=
+  asis_eq_spec_of_real goroot gopath file hc h
+
+-- "/x/go", "/x/go-w", "/x/go-w/src/d/m.go", "/y", "/x/go-w/app/m.go", "/y/pkg/mod/a/f.go", "/y/a"
+abbrev sGo : List Nat := [47,120,47,103,111]
+abbrev sGoW : List Nat := [47,120,47,103,111,45,119]
+abbrev sGoWFile : List Nat := [47,120,47,103,111,45,119,47,115,114,99,47,100,47,109,46,103,111]
+abbrev sY : List Nat := [47,121]
+abbrev sSibling : List Nat := [47,120,47,103,111,45,119,47,97,112,112,47,109,46,103,111]
+abbrev sModCache : List Nat := [47,121,47,112,107,103,47,109,111,100,47,97,47,102,46,103,111]
+abbrev sShort : List Nat := [47,121,47,97]
+
+/-- the full-strength statement for the old code (false) -/
+def normalize_full_before_repair : Prop :=
+  ∀ goroot gopath file : List Nat, clean goroot = goroot →
+    normalizePathOld false goroot gopath file =
+      some (GV.Spec.SrcMapPath.name ((splitList gopath ++ [goroot]).map clean) file)
+
+/-- witness 1: GOROOT=/x/go, GOPATH=/y, a module-mode project /x/go-w/app/m.go (sibling of GOROOT whose path starts with
+    the GOROOT string) is named "pp/m.go" instead of "m.go" -/
+theorem normalize_counterexample_sibling :
+    normalizePathOld false sGo sY sSibling = some [112,112,47,109,46,103,111] ∧
+    GV.Spec.SrcMapPath.name ((splitList sY ++ [sGo]).map clean) sSibling = [109,46,103,111] := by decide
+
+theorem normalize_counterexample : ¬ normalize_full_before_repair := by
+  intro h
+  have := h sGo sY sSibling (by decide)
+  rw [normalize_counterexample_sibling.1, normalize_counterexample_sibling.2] at this
+  exact absurd this (by decide)
+
+/-- witness 2: a module-cache file $GOPATH/pkg/mod/a/f.go is named "/mod/a/f.go" (4 bytes cut blindly), demanded "f.go" -/
+theorem normalize_counterexample_modcache :
+    normalizePathOld false sGo sY sModCache = some [47,109,111,100,47,97,47,102,46,103,111] ∧
+    GV.Spec.SrcMapPath.name ((splitList sY ++ [sGo]).map clean) sModCache = [102,46,103,111] := by decide
+
+/-- witness 3: a file name shorter than root + 4 makes the code panic (slice bounds out of range) -/
+theorem normalize_counterexample_panic : normalizePathOld false sGo sY sShort = none := by decide
+
+/-- the hypothesis of the partial theorem is satisfiable in the very configuration where roots are string prefixes of
+    one another: GOROOT=/x/go, GOPATH=/x/go-w, file /x/go-w/src/d/m.go — GOPATH is tested first and really contains the
+    file, so the name is "/d/m.go" (testing GOROOT first would give "/src/d/m.go") -/
+theorem normalize_prefix_roots_ok :
+    clean sGo = sGo ∧ FirstMatchReal (codeRoots sGo sGoW) sGoWFile ∧
+    normalizePathOld false sGo sGoW sGoWFile = some [47,100,47,109,46,103,111] := by
+  refine ⟨by decide, ⟨?_, ?_⟩, by decide⟩
+  · intro r hr
+    have : r = sGoW ∨ r = sGo := by
+      have hcr : codeRoots sGo sGoW = [sGoW, sGo] := by decide
+      rw [hcr] at hr; simpa using hr
+    rcases this with rfl | rfl <;> decide
+  · intro r hr
+    have hcr : (codeRoots sGo sGoW).find? (hasPrefix sGoWFile) = some sGoW := by decide
+    rw [hcr] at hr
+    injection hr with hr; subst hr
+    exact List.isPrefixOf_iff_prefix.mp (by decide)
+
+
+end NormalizePathOld
 
 end GV.Props.C19
